@@ -304,6 +304,8 @@ def _main(a, pid, tier, seed, t0):
     except Exception as e:
         changed_anchors = None
     anchor_rounds = 0
+    if os.environ.get("VERIF_ANCHOR_FORCE") == "1" and not changed_anchors:
+        changed_anchors = [("<forced>", "VERIF_ANCHOR_FORCE=1", "soak")]      # development aid: extra rounds on any tree
     if changed_anchors and not all_fail and not a.only and os.environ.get("VERIF_ANCHOR_BOOST", "1") != "0":
         cap = float(os.environ.get("VERIF_ANCHOR_CAP", "420" if tier == "quick" else "2400"))
         max_rounds = int(os.environ.get("VERIF_ANCHOR_ROUNDS", "4" if tier == "quick" else "2"))
